@@ -1,6 +1,8 @@
 import DmrVerif.Model.Bptc
+import DmrVerif.Model.BptcHist
 
-/-! line-protocol operations for BPTC(196,96) (C02) -/
+/-! line-protocol operations for BPTC(196,96) (C02): the stateless entry points (`bptc.*`) and histories of
+calls over the objects handed out so far (`bh.*`, a `Bptc.Store` is threaded through the lines) -/
 
 namespace Dmr.Driver
 open Dmr Dmr.Bptc
@@ -29,5 +31,61 @@ def bptcOp (op : String) (args : List String) : Option String :=
     let w ← bptcBits w
     some (bptcOut (Bptc.deinterleaveAllBits w))
   | _, _ => none
+
+/-! ### histories (`bh.*`) -/
+
+/-- `B:0101…` / `L:0101…` (a new bitarray in a big / little-endian container: the entry points index
+the bits, the container's bit order is not observable) or `@k` (the kept object itself) -/
+def bhArg (s : String) : Option Bptc.Arg :=
+  match s.toList with
+  | '@' :: ds => (String.ofList ds).toNat?.map Bptc.Arg.ref
+  | e :: ':' :: bs =>
+    if e == 'B' || e == 'L' then (bptcBits (String.ofList bs)).map Bptc.Arg.lit else none
+  | _ => none
+
+def bhRef (s : String) : Option Nat :=
+  match s.toList with
+  | '@' :: ds => (String.ofList ds).toNat?
+  | _ => none
+
+def bhStepOf (op : String) (args : List String) : Option Bptc.Step :=
+  match op, args with
+  | "bh.encode", [a] => (bhArg a).map .encode
+  | "bh.data", [r, a] =>
+    if r == "1" then (bhArg a).map (.data true) else if r == "0" then (bhArg a).map (.data false) else none
+  | "bh.repair", [a] => (bhArg a).map .repair
+  | "bh.deint", [a] => (bhArg a).map .deint
+  | "bh.make", [] => some .make
+  | "bh.fill", [t, a] => do
+    let t ← bhRef t
+    let a ← bhArg a
+    some (.fill t a)
+  | "bh.flip", [k, i] => do
+    let k ← bhRef k
+    let i ← i.toNat?
+    some (.flip k i)
+  | "bh.setall", [k, v] => do
+    let k ← bhRef k
+    if v == "1" then some (.setAll k true) else if v == "0" then some (.setAll k false) else none
+  | "bh.read", [k] => (bhRef k).map .read
+  | "bh.nop", [] => some (.nop false)
+  | "bh.nop+", [] => some (.nop true)
+  | _, _ => none
+
+def bhOut : Bptc.Out → String
+  | .val b => bitsToString b
+  | .err => "ERR AssertionError"
+  | .done => "ok"
+  | .void => "void"
+
+/-- one line of the stateful driver -/
+def bptcStep (s : Bptc.Store) (op : String) (args : List String) : Bptc.Store × String :=
+  if op == "bh.reset" then (Bptc.Store.empty, "ok") else
+  match bhStepOf op args with
+  | some st => let r := Bptc.step s st; (r.1, bhOut r.2)
+  | none =>
+    match bptcOp op args with
+    | some out => (s, out)
+    | none => (s, "ERR bad-op " ++ op)
 
 end Dmr.Driver
